@@ -15,7 +15,8 @@ META = {
         "Underline does not survive the end of a parameter and that completed colour groups return to Normal; (targets) "
         "color_target / r / g are assigned on entry of the states that read them; (emit) a run is emitted exactly when the "
         "style changes with text pending, carrying the old style, and the new style is stored last. Does NOT decide full "
-        "trace equivalence with an SGR interpreter."),
+        "trace equivalence with an SGR interpreter."
+        " Linked rules: the VT parser underneath (C02's table / order / action-map / guards / reset / limits / params rules, all but the OSC payload rule) is evaluated in this check too — a run is only right if every complete SGR sequence is dispatched with its parameters."),
 }
 
 MANIFEST = {
@@ -168,6 +169,8 @@ def run(ctx):
     rep.guarded("codes", FN + "csi_dispatch", lambda: rule_codes(facts, rep))
     rep.guarded("substate", FN + "csi_dispatch", lambda: rule_substate(facts, rep))
     rep.guarded("emit", FN + "csi_dispatch", lambda: rule_emit(facts, rep))
+    from rules import links
+    links.parser_under_sgr(facts, rep)   # the runs are only as good as the parser's dispatch of each SGR sequence
     for r, n in (("codes", 26), ("substate", 33), ("targets", 5), ("emit", 9)):
         rep.floor(r, n)
 
